@@ -104,6 +104,67 @@ func runC03(args []string) int {
 		}
 	}
 
+	// --- streams through Decode in lock step with the model
+	nstr := 1500
+	if o.tier == "thorough" {
+		nstr = 150000
+	}
+	nstr *= o.boost
+	cfg := defaultCfg()
+	cfg.maxRecords = 40
+	cfg.unknownMsg = 60
+	cfg.secondFid = 80
+	st := genStats{}
+	for i := 0; i < nstr; i++ {
+		s := genStream(rg, &cfg, st)
+		if i == 0 {
+			// the recorded witness of the known finding: activity file, then a file_id of type settings
+			s = &stream{HdrSize: 14, Proto: 0x10, Profile: 2115, HdrCRC: "ok", Records: []record{
+				{Kind: "D", Local: 0, Gmn: 0, Fields: []fieldDefS{{0, 1, 0}}}, {Kind: "M", Local: 0, Pay: []byte{4}},
+				{Kind: "M", Local: 0, Pay: []byte{2}}}}
+			s.fillHex()
+		}
+		rs := readerSpec{Data: s.bytes()}
+		impl, model, err := w.decode("D", optSet{}, rs)
+		if err != nil {
+			fmt.Println("driver:", err)
+			return 2
+		}
+		r.Traces++
+		rep := map[string]interface{}{"entry": "Decode", "stream": s, "input_hex": hexs(rs.Data)}
+		if impl.observable() != model.observable() {
+			r.corrFail("decode_routing", fmt.Sprintf("model and implementation differ on a generated stream\n    impl : %.300s\n    model: %.300s", impl.observable(), model.observable()), rep)
+		}
+		nontrivial := strings.Contains(strings.Join(impl.Files, ""), "]&") || strings.Count(strings.Join(impl.Files, ""), "[") > 1
+		r.count("s"+hexs(rs.Data), nontrivial && impl.ErrClass == 0)
+		// accessor property on what Decode returns
+		if impl.ErrClass == 0 && impl.Panic == "" {
+			f, err := fit.Decode(rs.reader())
+			// keep the model's accumulator mirror in step with this extra call
+			if _, m2, e2 := w.decodeModelOnly("D", optSet{}, rs); e2 == nil {
+				_ = m2
+			}
+			if err == nil {
+				fids := 0
+				for _, rec := range s.Records {
+					if rec.Kind != "D" && findDefGmn(s, rec) == 0 {
+						fids++
+					}
+				}
+				tag := "accessor"
+				if fids > 1 {
+					tag = "second_file_id"
+					r.hist("streams_with_second_file_id")
+				}
+				checkAccessors(f, "Decode result", rep, tag)
+			}
+		}
+		if i < 2 {
+			r.sample(map[string]interface{}{"stream": s.specArgs(), "decoded": fmt.Sprintf("%.300s", impl.observable())})
+		}
+	}
+	// (the direct add sequences run AFTER the streams: they call the real expandComponents, which moves the
+	// library's process-wide accumulators behind the back of the model's mirror in world)
 	// --- direct add sequences
 	nseq := 60
 	if o.tier == "thorough" {
@@ -138,12 +199,31 @@ func runC03(args []string) int {
 				if rg.chance(2, 3) && len(hosted) > 0 {
 					mn = hosted[rg.intn(len(hosted))]
 				}
-				if mn == 0 {
-					continue // a later file_id is exercised separately (known finding)
+				if mn == 0 && rg.chance(1, 2) {
+					continue // a later file_id of ANOTHER type is exercised separately (known finding)
 				}
 				mv, ok := newFilled(mn, 1+i*7+k)
 				if !ok {
 					continue
+				}
+				if mn == 0 {
+					// a repeated file_id of the file's own type: must leave the container alone
+					mv.FieldByName("Type").SetUint(uint64(ft))
+					r.hist("add_same_type_file_id")
+				} else if pv, ok := fit.VerifNewMesg(mn); ok {
+					// routing must not depend on content: all-invalid and partly invalid messages too
+					switch rg.intn(4) {
+					case 0:
+						mv.Set(pv.Elem())
+						r.hist("add_all_invalid_msg")
+					case 1:
+						for fi := 0; fi < mv.NumField(); fi++ {
+							if rg.chance(1, 2) {
+								mv.Field(fi).Set(pv.Elem().Field(fi))
+							}
+						}
+						r.hist("add_partly_invalid_msg")
+					}
 				}
 				in := reflect.New(mv.Type()).Elem()
 				in.Set(mv)
@@ -208,65 +288,6 @@ func runC03(args []string) int {
 		}
 	}
 
-	// --- streams through Decode in lock step with the model
-	nstr := 1500
-	if o.tier == "thorough" {
-		nstr = 150000
-	}
-	nstr *= o.boost
-	cfg := defaultCfg()
-	cfg.maxRecords = 40
-	cfg.unknownMsg = 60
-	cfg.secondFid = 80
-	st := genStats{}
-	for i := 0; i < nstr; i++ {
-		s := genStream(rg, &cfg, st)
-		if i == 0 {
-			// the recorded witness of the known finding: activity file, then a file_id of type settings
-			s = &stream{HdrSize: 14, Proto: 0x10, Profile: 2115, HdrCRC: "ok", Records: []record{
-				{Kind: "D", Local: 0, Gmn: 0, Fields: []fieldDefS{{0, 1, 0}}}, {Kind: "M", Local: 0, Pay: []byte{4}},
-				{Kind: "M", Local: 0, Pay: []byte{2}}}}
-			s.fillHex()
-		}
-		rs := readerSpec{Data: s.bytes()}
-		impl, model, err := w.decode("D", optSet{}, rs)
-		if err != nil {
-			fmt.Println("driver:", err)
-			return 2
-		}
-		r.Traces++
-		rep := map[string]interface{}{"entry": "Decode", "stream": s, "input_hex": hexs(rs.Data)}
-		if impl.observable() != model.observable() {
-			r.corrFail("decode_routing", fmt.Sprintf("model and implementation differ on a generated stream\n    impl : %.300s\n    model: %.300s", impl.observable(), model.observable()), rep)
-		}
-		nontrivial := strings.Contains(strings.Join(impl.Files, ""), "]&") || strings.Count(strings.Join(impl.Files, ""), "[") > 1
-		r.count("s"+hexs(rs.Data), nontrivial && impl.ErrClass == 0)
-		// accessor property on what Decode returns
-		if impl.ErrClass == 0 && impl.Panic == "" {
-			f, err := fit.Decode(rs.reader())
-			// keep the model's accumulator mirror in step with this extra call
-			if _, m2, e2 := w.decodeModelOnly("D", optSet{}, rs); e2 == nil {
-				_ = m2
-			}
-			if err == nil {
-				fids := 0
-				for _, rec := range s.Records {
-					if rec.Kind != "D" && findDefGmn(s, rec) == 0 {
-						fids++
-					}
-				}
-				tag := "accessor"
-				if fids > 1 {
-					tag = "second_file_id"
-					r.hist("streams_with_second_file_id")
-				}
-				checkAccessors(f, "Decode result", rep, tag)
-			}
-		}
-		if i < 2 {
-			r.sample(map[string]interface{}{"stream": s.specArgs(), "decoded": fmt.Sprintf("%.300s", impl.observable())})
-		}
-	}
 	for k, v := range st {
 		if strings.HasPrefix(k, "filetype_") {
 			r.Hist["stream_"+k] = v
